@@ -83,6 +83,7 @@ fn run(ch: Chooser, ctx: &RunCtx, mut opts: BasicOpts) -> RunOut {
     opts.allow_corrupt = false;
     opts.idle_off = true;
     opts.wl.unordered = 100;
+    opts.wl.lazy = 100;
     let mut sc = Basic::build(&mut w, opts);
     w.run(&mut sc);
     liveness_end_checks(&mut w, &sc);
